@@ -27,6 +27,10 @@ def configs(tier):
             out.append(dict(kind=kind, K=K, d=d, x64=True))
     out.append(dict(kind="nonstatio", K=K, d=1, time_first=True, x64=True))     # the time store fills before the space store
     out.append(dict(kind="ode", K=K, d=1, resume=3, x64=True))                  # solve called again with the returned generator after 3 iterations
+    out.append(dict(kind="nonstatio", K=K, d=1, resume=3, x64=True))            # same, product domain (the returned generator carries its sizes as arrays)
+    if tier == "thorough":
+        out.append(dict(kind="statio", K=K, d=2, resume=3, x64=True))
+        out.append(dict(kind="nonstatio", K=K, d=1, resume=3, time_first=True, x64=True))
     return out
 
 
@@ -125,7 +129,7 @@ def run(cfg, R):
 
     _, _, _, sizes = build(kind, 1, 2, d, time_first=tf)
     name = f"{kind}/d{d}/K{Kfull}" + ("/time-first" if tf else "") + (f"/resumed-after-{resume}" if resume else "")
-    tr = R.trace(name, f, (start0, every0), key=f"{kind}:d={d}:raises", use_stubs=True)
+    tr = R.trace(name, f, (start0, every0), key=f"{kind}:d={d}" + (":resumed" if resume else "") + ":raises", use_stubs=True)
     if tr is None: return
     start, every = tr.A[0][()], tr.A[1][()]
     base_assume = [le(const(0, "Int"), start), le(const(1, "Int"), every)]
